@@ -8,7 +8,7 @@ from props import common
 
 ID = "C05"
 MODULES = ["Series", "SO2", "SE2", "Rn", "SO3", "SE3", "SE23"]
-LEAN_TARGETS = ["Props.C05", "Props.C05A"]
+LEAN_TARGETS = ["Props.C05", "Props.C05A", "Props.C05B"]
 ANCHORS = ["cyecca/lie/group_so3.py", "cyecca/lie/group_se3.py", "cyecca/lie/group_se23.py"]
 MISSING = [
     "that sum_n ad^n/(n+1)! IS the differential of exp on se(3)/se_2(3) (derivative-of-the-exponential-map theorem is not in Mathlib): "
